@@ -11,6 +11,7 @@ digit-first, empty, padded) and must build or raise ValueError exactly per the d
 Oracle: step-wise refinement against the reference structure algebra (sim/model.py)."""
 
 import copy
+import json
 
 from .. import ctxsim, seams
 from ..core import Stats, digest, rng, violation
@@ -195,6 +196,12 @@ def gen(seed, tier="quick"):
             if leafkind == "int" and r.random() < 0.05:
                 xv = _map_leaves(x, lambda: {"t": "str", "v": "bad"})
             ops.append({"op": "tree", "ann": ann(form), "val": xv, "_rel": f"{form}|{rel}|{pk}|{bound}"})
+            if leafkind == "int" and '"t": "node"' in json.dumps(xv) and r.random() < 0.3:
+                # re-entrancy: the registered node's flatten function itself checks a tree against a structure name, in the same
+                # thread and context, while the outer check is flattening.  Plain `int` leaves only: with a leaf type that contains
+                # PyTree / array annotations the nested check can run inside an is_leaf probe whose failure rolls it back
+                ops[-1]["reentry"] = {"site": "node.flatten", "k": 1,
+                                      "op": {"op": "tree", "ann": ann(r.choice(("T", "S"))), "val": _map_leaves(small(1, node_ok=False), leafv)}}
             if r.random() < 0.1:
                 ops.append({"op": "obs"})
         return {"op": "ctx", "body": ops, "exit": "ret"}
